@@ -967,7 +967,8 @@ T_ENUM = {"type": "string", "enum": ["cat", "dog"]}
 # late targets: declared AFTER every holder, so that a holder's allOf member is a FORWARD reference (resolved by the retry loop of _process_models).
 # `Item` -> `BaseItem`: the referenced name merely ENDS WITH the referring class name (must not be mistaken for a recursive allOf); `Zed` -> `Other`: control.
 LATE_TARGETS = ["BaseItem", "Other", "BigCat"]
-TARGETS = {"TModel": T_MODEL, "TEnum": T_ENUM, "BaseItem": T_MODEL, "Other": T_MODEL, "BigCat": T_MODEL}
+T_BIN = {"type": "string", "format": "binary"}
+TARGETS = {"TModel": T_MODEL, "TEnum": T_ENUM, "TBin": T_BIN, "BaseItem": T_MODEL, "Other": T_MODEL, "BigCat": T_MODEL}
 HOLDER_NAMES = {"fwdallof-suffix:BaseItem": "Item", "fwdallof-control:Other": "Zed", "fwdallof-suffix3:BigCat": "Cat"}
 M_INST = [{"id": 3, "when": "2020-01-01", "kind": "cat", "tags": ["a", "b"]}, {"id": 0}, {"id": 1, "zzz": True, "kind": "dog"}, {"id": 2, "kind": "bird"}, {"when": "2020-01-01"}, {"id": 4, "when": "nope"}]
 E_INST = ["cat", "dog", "bird", 5]
@@ -991,7 +992,9 @@ SCHEMA_POS = [
      lambda I: [{**i, "extra": "e", "pre": 1} for i in I] + I[:2]),
     ("default:TEnum", "TEnum", lambda X: {"type": "object", "properties": {"k": ({"allOf": [X], "default": "dog"} if "$ref" in X else {**X, "default": "dog"})}}, lambda I: [{"k": i} for i in I] + [{}]),
 ]
-EP_POS = ["param-query:TEnum", "param-header:TEnum", "param-query-list:TEnum", "body-json:TModel", "body-form:TModel", "response:TModel", "response-list:TModel"]
+# every request media type kind; TModel is used by reference as a multipart body AND as json / form body AND as a response: one shared class must serve all
+EP_POS = ["param-query:TEnum", "param-header:TEnum", "param-query-list:TEnum", "body-json:TModel", "body-form:TModel", "body-multipart:TModel", "body-octet:TBin",
+          "response:TModel", "response-list:TModel"]
 
 
 def holder_name(pid):
@@ -1003,7 +1006,7 @@ def holder_name(pid):
 def schema_doc(inline_positions):
     """the document with target schemas used by $ref everywhere except at the positions listed (an inline copy there)"""
     X = lambda pid, t: copy.deepcopy(TARGETS[t]) if pid in inline_positions else {"$ref": SREF + t}
-    S = {"TModel": copy.deepcopy(T_MODEL), "TEnum": copy.deepcopy(T_ENUM)}
+    S = {"TModel": copy.deepcopy(T_MODEL), "TEnum": copy.deepcopy(T_ENUM), "TBin": copy.deepcopy(T_BIN)}
     for pid, t, mk, _ in SCHEMA_POS:
         S[holder_name(pid)] = mk(X(pid, t))
     for t in LATE_TARGETS:
@@ -1020,6 +1023,10 @@ def schema_doc(inline_positions):
             op["requestBody"] = {"required": True, "content": {"application/json": {"schema": x}}}
         elif kind == "body-form":
             op["requestBody"] = {"required": True, "content": {"application/x-www-form-urlencoded": {"schema": x}}}
+        elif kind == "body-multipart":
+            op["requestBody"] = {"required": True, "content": {"multipart/form-data": {"schema": x}}}
+        elif kind == "body-octet":
+            op["requestBody"] = {"required": True, "content": {"application/octet-stream": {"schema": x}}}
         elif kind == "response":
             op["responses"]["200"]["content"] = {"application/json": {"schema": x}}
         else:
@@ -1036,12 +1043,27 @@ def strip_cls(x):
     return x
 
 
+def norm_multipart(reqs):
+    """captured requests with the random multipart boundary replaced by a fixed token (header and payload)"""
+    out = []
+    for q in reqs or []:
+        q = dict(q)
+        ct = next((v for k, v in q.get("headers", []) if k.lower() == "content-type"), "")
+        m = re.search(r"boundary=([^;\s]+)", ct)
+        if ct.startswith("multipart/") and m:
+            b = m.group(1)
+            q["headers"] = [[k, v.replace(b, "BOUNDARY")] for k, v in q["headers"]]
+            q["content_hex"] = bytes.fromhex(q.get("content_hex", "")).replace(b.encode(), b"BOUNDARY").hex()
+        out.append(q)
+    return out
+
+
 def wire_view(r):
     """what the two clients must agree on: decoded structure modulo class names, re-encoded JSON, exception types, captured requests"""
     v = {}
     for k in ("obj", "out", "py_equal", "dumps_ok", "redecode_equal", "requests", "result"):
         if k in r:
-            v[k] = strip_cls(r[k])
+            v[k] = strip_cls(norm_multipart(r[k]) if k == "requests" else r[k])
     for k in ("dec_exc", "enc_exc", "exc", "redecode_exc", "fatal_op"):
         if k in r:
             v[k] = r[k].get("type")
@@ -1085,6 +1107,10 @@ def schema_ops(doc):
                 arg = {"@enum": [cls, v]}
                 ops.append({"op": "call", "module": mod, "variant": "sync_detailed", "kwargs": {"k": [arg, {"@enum": [cls, "cat"]}] if kind.endswith("list") else arg}, "response": {"status": 200}})
                 labels.append((pid, v))
+        elif kind == "body-octet":
+            for hx in ("0001ff", ""):
+                ops.append({"op": "call", "module": mod, "variant": "sync_detailed", "kwargs": {"body": {"@file": hx}}, "response": {"status": 200}})
+                labels.append((pid, hx))
         elif kind.startswith("body"):
             cls = pcls(name, "bodies")
             for j in M_INST[:3]:
@@ -1172,6 +1198,8 @@ def stage_c_schemas(run, tier):
             run.violation("oracle", {"doc": ref["doc"], "holder": holder_name(pid), "expected_import": imp, "note": "holder module does not import the single shared class of the referenced schema"})
     for pid in EP_POS:
         kind, t = pid.split(":")
+        if t == "TBin":
+            continue
         src = mods.get("api/t/op_%s.py" % kind.replace("-", "_"), "")
         imp = "from ...models.%s import %s" % ({"TModel": "t_model", "TEnum": "t_enum"}[t], t)
         if imp not in src:
